@@ -1,5 +1,6 @@
 """C19 License expressions are validated and canonicalised per SPDX (canonicalize_license_expression)."""
 import os, re, subprocess, json
+import gen_lic
 from core import Case, IMPL_PY, impl_env
 
 IMPL_MODULE = "lic_impl"
@@ -211,7 +212,33 @@ def nontrivial(case, impl):
     return isinstance(impl, str) and impl.startswith("OK|")
 
 
+_folded = None
+
+
+def _spec(s):
+    """The harness-side reading of the property (harness/gen_lic.py) over the tables of the working tree."""
+    global _folded
+    if _folded is None: _folded = gen_lic.fold_tables(*tables())
+    return gen_lic.spec(s, True, *_folded)
+
+
 def match_kelvin(case, impl, model):
-    """Proposed known finding: a token that matches a table key only through U+212A KELVIN SIGN -> 'k' is accepted."""
-    return (case.cmd == "l.canon" and "K" in case.args[0] and isinstance(impl, str) and impl.startswith("OK|") and impl == model
-            and "K" not in impl)
+    """Proposed known finding: a word that is an identifier only through str.lower() mapping U+212A KELVIN SIGN to 'k' is accepted.
+    Instance = the input contains U+212A, is not an expression, becomes one when 'k' is written instead, and the implementation
+    (like the faithful model) returns the canonical text of that other expression."""
+    if case.cmd != "l.canon" or gen_lic.KELVIN not in case.args[0]: return False
+    if not (isinstance(impl, str) and impl.startswith("OK|") and impl == model): return False
+    s = case.args[0]
+    if _spec(s) is not None: return False
+    r = _spec(s.replace(gen_lic.KELVIN, "k"))
+    return r is not None and impl == "OK|" + r[0]
+
+
+def match_deep(case, impl, model):
+    """Proposed known finding: a well-formed expression nested deeper than CPython's eval() takes is rejected.
+    Instance = well-formed per the property, nesting depth > 100, implementation rejects, and the faithful model says
+    'rejected' (depth > 200) or 'interpreter dependent' (101..200)."""
+    if case.cmd != "l.canon" or impl != "E" or gen_lic.KELVIN in case.args[0]: return False
+    r = _spec(case.args[0])
+    if r is None or r[1] <= 100: return False
+    return model == "E" if r[1] > 200 else (isinstance(model, str) and model == "L|" + r[0])
